@@ -93,8 +93,9 @@ def real_out(c):
             import pandas as pd
             back = pd.read_csv(out)
             w = np.asarray(back.values, dtype=float)
-            same = list(back.columns) == list(df.columns) and w.shape == v.shape and bool(
-                np.all((np.abs(w - v) <= 0.6e-8) | (np.isnan(w) & np.isnan(v)) | (np.isinf(w) & (w == v))))
+            with np.errstate(all="ignore"):
+                same = list(back.columns) == list(df.columns) and w.shape == v.shape and bool(
+                    np.all((np.abs(w - v) <= 0.6e-8) | (np.isnan(w) & np.isnan(v)) | (np.isinf(w) & (w == v))))
             res[4] = same
         return tuple(res)
     except Exception as e:  # noqa: BLE001
@@ -334,6 +335,13 @@ def correspond(run):
         broken.append({"kind": "correspondence", "name": "Pms.TimeCorr.Program.run(Gen.TimeCorr.program)~time_correlation",
                        "detail": f"{len(bad)} of {len(cases)} cases disagree; first: {bad[0][2][:300]}",
                        "cases": [c for c, _, _ in bad[:40]]})
+    # the same inputs directly against the Spec (nothing regenerated on the model side): the statement of C14_refines, sampled
+    bad2 = run_cases(run, cases, "spec", record=False)
+    run.coverage["cases_also_judged_against_spec"] = len(cases)
+    if bad2:
+        broken.append({"kind": "spec-monitor", "name": "Pms.TimeCorr.spec~time_correlation",
+                       "detail": f"{len(bad2)} of {len(cases)} cases contradict the Spec; first: {bad2[0][2][:300]}",
+                       "cases": [c for c, _, _ in bad2[:40]]})
     return broken
 
 
